@@ -85,7 +85,8 @@ def norm_self(s):
     return s.replace("&'amut", '').replace('&mut', '')
 
 
-SKIP_M = {'map_err', 'into', 'as_bytes', 'borrow_mut', 'as_mut', 'as_ref', 'clone', 'to_owned', 'by_ref'}
+SKIP_M = {'map_err', 'into', 'as_bytes', 'borrow_mut', 'as_mut', 'as_ref', 'clone', 'to_owned', 'by_ref',
+          'iter', 'into_iter', 'enumerate', 'copied', 'cloned'}      # adaptors that emit nothing
 
 
 def events(fn_node, reference=False, helpers=None, _depth=0):
@@ -154,7 +155,29 @@ def events(fn_node, reference=False, helpers=None, _depth=0):
             out.append('b:' + str(x.get('value')))
             return
         if k == 'if':
-            out.append('if(' + re.sub(r'\s', '', x.get('cond') or '') + ')')
+            cond = re.sub(r'\s', '', x.get('cond') or '')
+            m = re.match(r'^\(?[*&]*([\w.]+)(==|!=)[*&]*([\w:]+)\)?$', cond)
+            if m and not cond.startswith('let'):
+                # two-way test of a value against a constant: one canonical form for `if x == P {A} else {B}`, `if x != P {B} else {A}` and
+                # `match x { P => A, _ => B }` (a port may spell the same decision either way)
+                out.append('br(%s==%s)' % (m.group(1), pat(m.group(3))))
+                first, second = (x.get('then'), x.get('else')) if m.group(2) == '==' else (x.get('else'), x.get('then'))
+                go(first)
+                out.append('else')
+                go(second)
+                out.append('fi')
+                return
+            m = re.match(r'^(!?)([\w.]+)\.is_finite\(\)$', cond)
+            if m:
+                # `if v.is_finite() {A} else {B}` = `match v.classify() { Nan | Infinite => B, _ => A }`
+                out.append('br(finite(%s))' % m.group(2))
+                first, second = (x.get('then'), x.get('else')) if not m.group(1) else (x.get('else'), x.get('then'))
+                go(first)
+                out.append('else')
+                go(second)
+                out.append('fi')
+                return
+            out.append('if(' + cond + ')')
             go(x.get('then'))
             if x.get('else'):
                 out.append('else')
@@ -174,6 +197,23 @@ def events(fn_node, reference=False, helpers=None, _depth=0):
             scr = re.sub(r'\s', '', x.get('scrut') or '')
             if scr in ('self', '*self') and len(arms) == 1:
                 go(arms[0].get('body'))
+                return
+            pats = [re.sub(r'\s', '', a.get('pat') or '') for a in arms]
+            if scr.endswith('.classify()') and len(arms) == 2 and '_' in pats and pat(pats[1 - pats.index('_')]) in ('Nan|Infinite', 'Infinite|Nan'):
+                i = pats.index('_')
+                out.append('br(finite(%s))' % scr[:-len('.classify()')].lstrip('*&'))
+                go(arms[i].get('body'))
+                out.append('else')
+                go(arms[1 - i].get('body'))
+                out.append('fi')
+                return
+            if len(arms) == 2 and '_' in pats and re.match(r'^[\w:]+$', pats[1 - pats.index('_')]) and pats[0] != pats[1] and not any(a.get('guard') for a in arms):
+                i = 1 - pats.index('_')
+                out.append('br(%s==%s)' % (scr.lstrip('*&'), pat(pats[i])))
+                go(arms[i].get('body'))
+                out.append('else')
+                go(arms[1 - i].get('body'))
+                out.append('fi')
                 return
             out.append('match(' + scr + ')')
             for a in arms:
@@ -467,6 +507,32 @@ def check(fx, rep, tier):
                         ok = t['dest']['l'] == 0 or 0 in body.slice_back([0])[0]
                         wname = body.term(ws[0])['callee'].get('name')
                         ok = ok and wname == 'write_' + body.name.split('_')[1]
+                    if not ok and not bs and not es:
+                        # helper form: `self.quoted(|f, w| f.write_i8(w, value))` - a private helper writes the quotes around the call of its closure parameter
+                        want = 'write_' + body.name.split('_')[1]
+                        for b0, t0 in body.iter_terms('call'):
+                            hb = crate.by_path.get(t0['callee'].get('def') or '')
+                            if hb is None or 'json_ser' not in hb.path:
+                                continue
+                            clos = []
+                            for a_ in t0['args']:
+                                tr = body.trace(a_)
+                                if tr.get('kind') == 'aggr' and tr['rv'].get('kind') == 'closure':
+                                    clos.append(crate.by_path.get(tr['rv'].get('def')))
+                            if len(clos) != 1 or clos[0] is None:
+                                continue
+                            hbs = [b for b, t in hb.iter_terms('call') if t['callee'].get('name') == 'begin_string']
+                            hes = [b for b, t in hb.iter_terms('call') if t['callee'].get('name') == 'end_string']
+                            hcl = [b for b, t in hb.iter_terms('call') if t['callee'].get('name') in ('call_once', 'call_mut', 'call') and t['args'] and
+                                   (op_place(t['args'][0]) or {}).get('l') is not None and
+                                   any(1 <= l_ <= hb.arg_count for l_ in hb.slice_back([op_place(t['args'][0])['l']])[0])]
+                            hother = [t['callee'].get('name') for b, t in hb.iter_terms('call') if (t['callee'].get('name') or '').startswith('write_')]
+                            cws = [t['callee'].get('name') for b, t in clos[0].iter_terms('call') if (t['callee'].get('name') or '').startswith('write_')]
+                            h_ok = len(hbs) == 1 and len(hes) == 1 and len(hcl) == 1 and not hother and hb.dominates(hbs[0], hcl[0]) and hb.dominates(hcl[0], hes[0]) and \
+                                (hb.term(hes[0])['dest']['l'] == 0 or 0 in hb.slice_back([0])[0])
+                            ret_ok = t0['dest']['l'] == 0 or 0 in body.slice_back([0])[0]
+                            if h_ok and cws == [want] and ret_ok:
+                                ok = True
                     rep.check(ok, 'E4', 'key|%s|quoted|%s' % (body.name, cfg), body.where(), 'integer key is written as begin_string, write_%s, end_string' % body.name.split('_')[1],
                               'integer key is not written between begin_string and end_string with the matching write_<int>')
             else:
